@@ -173,6 +173,36 @@ func decideRTNoZone(c rtCase) (*rp.Fail, string, bool) {
 			fail = rp.Failf("codec/"+site, "%s in zone %s: decode(encode(v)) != v: %s (encoding %x)", typeName, c.Zone, d, enc)
 			return
 		}
+		// a decoded value belongs to the caller: overwriting everything that is reachable from it (the targets of pointer
+		// fields, the bytes of slices) must not change what the next decode of the same bytes returns
+		scribbled := 0
+		for _, f := range fv.Leaves(dec) {
+			switch f.Kind() {
+			case reflect.Ptr:
+				if !f.IsNil() && f.Elem().CanSet() {
+					f.Elem().Set(reflect.Zero(f.Type().Elem()))
+					scribbled++
+				}
+			case reflect.Slice:
+				if f.Type().Elem().Kind() == reflect.Uint8 {
+					for i := 0; i < f.Len(); i++ {
+						f.Index(i).SetUint(uint64(0xa5 ^ byte(i)))
+					}
+					scribbled++
+				}
+			}
+		}
+		if scribbled > 0 {
+			again, err := decode(append([]byte(nil), enc...))
+			if err != nil {
+				fail = rp.Failf("codec.Unmarshal/rejects-own-encoding", "%s: second decode of %x failed: %v", typeName, enc, err)
+				return
+			}
+			if d := fv.FirstDiff(before, fv.CanonAll(again)); d != "" {
+				fail = rp.Failf("codec.Unmarshal/result-shared-between-decodes", "%s in zone %s: after the caller overwrote what an earlier decoded value pointed to, decoding the same bytes %x gives another value: %s", typeName, c.Zone, enc, d)
+				return
+			}
+		}
 		// metamorphic: noise in the bytes that belong to no field
 		noisy := append([]byte(nil), enc...)
 		for i, off := range layout.Unused() {
